@@ -99,3 +99,31 @@ F("securities-reads-request-set", ["C16"], ("ofxtools/models/ofx.py", 'msgs = ge
 B("rename-loop-var", ["C16"], (BM_, "(trnrq, ", "(wrapper, ", 4), (BM_, " trnrq.", " wrapper.", 4), (BM_, "for trnrq in", "for wrapper in", 2))
 B("assert-form-arm", ["C16"], (BM_, "            elif isinstance(trnrq, CCSTMTENDTRNRQ):\n                stmtrq = trnrq.ccstmtendrq\n", "            else:\n                assert isinstance(trnrq, CCSTMTENDTRNRQ)\n                stmtrq = trnrq.ccstmtendrq\n"))
 B("getattr-handler-exception", ["C16"], (B_, "            except (AttributeError, KeyError):\n                continue", "            except (KeyError, AttributeError):\n                logger.debug(\"miss\")\n                continue"))
+
+# ---------------------------------------------------------------- C14 / client
+F("post-before-dryrun-gate", ["C14"], (C_, "        if dryrun:\n            return BytesIO(request)\n\n        if url is None:\n            url = self.url\n", "        if url is None:\n            url = self.url\n"), (C_, "        response = self.post_request(url, request, timeout)\n        return BytesIO(response)", "        response = self.post_request(url, request, timeout)\n        if dryrun:\n            return BytesIO(request)\n        return BytesIO(response)"))
+F("profile-lookup-before-dryrun", ["C14"], (C_, "        if dryrun:\n            url = \"\"\n            logger.info(\"Dry run for statement request\")\n        elif skip_profile:", "        if skip_profile:"))
+F("urllib-method-put", ["C14"], (C_, 'url, method="POST", data=serialized_request, headers=self.http_headers', 'url, method="PUT", data=serialized_request, headers=self.http_headers'))
+F("urllib-drops-headers", ["C14"], (C_, 'url, method="POST", data=serialized_request, headers=self.http_headers', 'url, method="POST", data=serialized_request'))
+F("requests-drops-headers", ["C14"], (C_, "                    headers=self.http_headers,\n", ""))
+F("profile-real-userid", ["C14"], (C_, "        user = password = AUTH_PLACEHOLDER", "        user = self.userid\n        password = AUTH_PLACEHOLDER"))
+F("profile-userid-not-passed", ["C14"], (C_, "        signon = self.signon(password, userid=user)", "        signon = self.signon(password)"))
+F("advertised-url-ignored", ["C14"], (C_, "            url = urls.pop()\n            logger.info(f\"Received service url", "            url = self.url\n            logger.info(f\"Received service url"))
+F("accounts-url-not-passed", ["C14"], (C_, "            version=version,\n            newfileuid=newfileuid,\n            dryrun=dryrun,\n            timeout=timeout,\n            url=url,\n        )", "            version=version,\n            newfileuid=newfileuid,\n            dryrun=dryrun,\n            timeout=timeout,\n        )"))
+F("class-level-jar", ["C14"], (C_, "    persist_cookies: bool = True\n", "    persist_cookies: bool = True\n    cookiejar = http.cookiejar.CookieJar()\n"), (C_, "        self.cookiejar = http.cookiejar.CookieJar()\n", ""))
+F("shared-module-jar", ["C14"], (C_, 'AUTH_PLACEHOLDER = "{:0<32}".format("anonymous")\n', 'AUTH_PLACEHOLDER = "{:0<32}".format("anonymous")\n_SHARED_JAR = http.cookiejar.CookieJar()\n'), (C_, "        self.cookiejar = http.cookiejar.CookieJar()\n", "        self.cookiejar = _SHARED_JAR\n"))
+F("install-opener", ["C14"], (C_, "            opener = urllib_request.build_opener(*handlers)\n", "            opener = urllib_request.build_opener(*handlers)\n            urllib_request.install_opener(opener)\n"))
+F("content-type-xml", ["C14"], (C_, '        mimetype = "application/x-ofx"', '        mimetype = "application/xml"'))
+F("accept-excludes-ofx", ["C14"], (C_, '"Accept": "*/*, {}, application/xml;q=0.9".format(mimetype),', '"Accept": "application/xml;q=0.9",'))
+F("useragent-hardwired", ["C14"], (C_, '            "User-Agent": self.useragent,', '            "User-Agent": "InetClntApp/3.0",'))
+F("persist-default-false", ["C14"], (C_, "    persist_cookies: bool = True\n", "    persist_cookies: bool = False\n"))
+F("requests-jar-not-attached", ["C14"], (C_, "                if self.persist_cookies:\n                    sess.cookies = self.cookiejar  # type: ignore\n", ""))
+F("download-overrides-url", ["C14"], (C_, "        if url is None:\n            url = self.url\n", "        url = self.url\n"))
+F("stmt-dryrun-not-forwarded", ["C14"], (C_, "        return self.download(\n            ofx,\n            newfileuid=newfileuid,\n            dryrun=dryrun,\n            timeout=timeout,\n            url=url,\n        )\n\n    def _get_service_urls(", "        return self.download(\n            ofx,\n            newfileuid=newfileuid,\n            timeout=timeout,\n            url=url,\n        )\n\n    def _get_service_urls("))
+F("retry-post", ["C14"], (C_, "            response = opener.open(req, timeout=timeout)\n", "            try:\n                response = opener.open(req, timeout=timeout)\n            except OSError:\n                response = opener.open(req, timeout=timeout)\n"))
+F("helper-posts-directly", ["C14"], (C_, "    def dtclient(self) -> datetime.datetime:", "    def ping(self) -> bytes:\n        return urllib_request.urlopen(self.url).read()\n\n    def dtclient(self) -> datetime.datetime:"))
+F("body-not-serialized-request", ["C14"], (C_, "                    data=serialized_request,\n", "                    data=b\"\",\n"))
+B("accept-without-explicit-ofx", ["C14"], (C_, '"Accept": "*/*, {}, application/xml;q=0.9".format(mimetype),', '"Accept": "*/*, application/xml;q=0.9",'))
+B("dryrun-negated-form", ["C14"], (C_, "        if dryrun:\n            return BytesIO(request)\n\n        if url is None:\n            url = self.url\n\n        # NB: we resolve the url opener here instead of in __init__ because the tests\n        #     mock urlopen after instantiating the OFXClient object\n        response = self.post_request(url, request, timeout)\n        return BytesIO(response)", "        if not dryrun:\n            if url is None:\n                url = self.url\n            response = self.post_request(url, request, timeout)\n            return BytesIO(response)\n        return BytesIO(request)"))
+B("log-in-post", ["C14"], (C_, "            logger.info(\"Using urllib to post request\")\n", "            logger.info(\"Using urllib to post request\")\n            logger.debug(f\"POST {url}\")\n"))
+B("placeholder-two-assignments", ["C14"], (C_, "        user = password = AUTH_PLACEHOLDER", "        user = AUTH_PLACEHOLDER\n        password = AUTH_PLACEHOLDER"))
